@@ -145,8 +145,19 @@ def eng_multi(pid, tier, wd, known, replay=None):
                 open(path, "w").write(text)
             renders.append(r)
         dropped = set()
+        hung = False
         for attempt in range(4):
-            q = sh([tools["wire"], "gen", "./..."], cwd=root, env=GOENV, timeout=900)
+            try:
+                q = sh([tools["wire"], "gen", "./..."], cwd=root, env=GOENV, timeout=240, mem_gb=10)
+            except subprocess.TimeoutExpired:
+                hung = True
+                q = subprocess.CompletedProcess([], 124, "", "timeout")
+                per, loose = {}, []
+                break
+            if q.returncode < 0 or "out of memory" in q.stderr or "cannot allocate memory" in q.stderr:
+                hung = True
+                per, loose = {}, []
+                break
             per, loose = prog.classify_stderr(q.stderr)
             if q.returncode == 0 or per or "wrote" in q.stderr or "goroutine " in q.stderr:
                 break
@@ -156,22 +167,22 @@ def eng_multi(pid, tier, wd, known, replay=None):
             for i in bad:
                 dropped.add(i); shutil.rmtree(os.path.join(root, "c%d" % i), ignore_errors=True)
         crashed = {}
-        if "goroutine " in q.stderr and ("panic:" in q.stderr or "fatal error:" in q.stderr):
+        if hung or ("goroutine " in q.stderr and ("panic:" in q.stderr or "fatal error:" in q.stderr)):
             from concurrent.futures import ThreadPoolExecutor
             jobs = [(i, d) for i in range(len(renders)) if i not in dropped for d in ("app", "multi", "soloc") if os.path.isdir(os.path.join(root, "c%d" % i, d))]
 
             def one(j):
                 i, d = j
                 try:
-                    x = sh([tools["wire"], "gen", "./c%d/%s" % (i, d)], cwd=root, env=GOENV, timeout=30)
+                    x = sh([tools["wire"], "gen", "./c%d/%s" % (i, d)], cwd=root, env=GOENV, timeout=30, mem_gb=4)
                     return i, d, x.returncode, x.stderr
                 except subprocess.TimeoutExpired:
                     return i, d, 124, "timeout"
             per = {}
             with ThreadPoolExecutor(max_workers=16) as ex:
                 for i, d, rc, err in ex.map(one, jobs):
-                    if "goroutine " in err or rc in (2, 124):
-                        crashed[(i, d)] = err[:1200]
+                    if "goroutine " in err or rc in (2, 124) or rc < 0:
+                        crashed[(i, d)] = err[:1200] or "killed (memory limit)"
                     pp, _ = prog.classify_stderr(err)
                     per.update(pp)
         # compile and run whatever generated
